@@ -19,13 +19,22 @@ package options
 import (
 	"fmt"
 	"regexp"
+	"sort"
 	"strings"
 )
 
 // SubstituteVariables will perform variable substitution according to a substitution map.
 // Example: SubstituteVariables("echo ${job.name}", map[string]string{"job.name": "jobconfig-sample.1650645000"})
 func SubstituteVariables(target string, submap map[string]string) string {
-	for name, value := range submap {
+	// Substitute in a fixed order, so that the result does not depend on the map
+	// iteration order when a substituted value itself contains a variable.
+	names := make([]string, 0, len(submap))
+	for name := range submap {
+		names = append(names, name)
+	}
+	sort.Strings(names)
+	for _, name := range names {
+		value := submap[name]
 		search := fmt.Sprintf("${%v}", name)
 		target = strings.ReplaceAll(target, search, value)
 	}
